@@ -16,9 +16,10 @@ def main():
     env = dict(os.environ)
     for k in ("AGILERL_VERIF", "VERIF_REPO", "PYTHONHASHSEED"):
         env.pop(k, None)
+    env_x = dict(env, OMP_NUM_THREADS="1", MKL_NUM_THREADS="1")  # 12 xdist workers x 16 torch threads each thrash the 16 cores (8 min instead of 40 s for tests/test_utils)
     cmd = ["/venv/bin/python", "-m", "pytest", "-q", "-p", "no:cacheprovider", "--timeout=900", "--continue-on-collection-errors",
            "-n", n, f"--junitxml={junit}"] + args
-    p = subprocess.run(cmd, cwd="/repo", env=env, stdout=subprocess.PIPE, stderr=subprocess.STDOUT, text=True)
+    p = subprocess.run(cmd, cwd="/repo", env=env_x, stdout=subprocess.PIPE, stderr=subprocess.STDOUT, text=True)
     tail = p.stdout.strip().splitlines()[-1:] 
     passed, seen = set(), set()
     for tc in ET.parse(junit).getroot().iter("testcase"):
